@@ -158,33 +158,6 @@ harness! {
     }
 }
 
-macro_rules! quantize_monotone {
-    ($name:ident, $lo:literal, $hi:literal) => {
-        harness! {
-            // bound: hilbert_quantize monotone per axis, bounds ($lo,$hi), all doubles lo<=a<=b<=hi, bits in 1..=31, D=1
-            #[kani::unwind(4)]
-            fn $name() {
-                let lo: f64 = $lo;
-                let hi: f64 = $hi;
-                let a: f64 = kani::any();
-                let b: f64 = kani::any();
-                let bits: u32 = kani::any();
-                kani::assume(bits >= 1 && bits <= 31);
-                kani::assume(lo <= a && a <= b && b <= hi);
-                let qa = hilbert_quantize(&[a], (lo, hi), bits);
-                let qb = hilbert_quantize(&[b], (lo, hi), bits);
-                let (Ok(qa), Ok(qb)) = (qa, qb) else { panic!("valid bits refused") };
-                assert!(qa[0] <= qb[0], "quantisation is monotone inside the bounds");
-                kani::cover!(qa[0] < qb[0], "strictly increasing case reached");
-                kani::cover!(qa[0] == qb[0] && a < b, "equal cell case reached");
-            }
-        }
-    };
-}
-
-quantize_monotone!(c17_hilbert_quantize_monotone_1d_unit, 0.0, 1.0);
-quantize_monotone!(c17_hilbert_quantize_monotone_1d_m3_5, -3.0, 5.0);
-
 // ---------------------------------------------------------------------------
 // Orderings are permutations (n = 3, D = 2, grid G = 2, duplicates and ±0.0 allowed)
 // ---------------------------------------------------------------------------
